@@ -173,13 +173,13 @@ theorem unappliable_dropped_of_no_crash (d : Docs) (u : Nat) (changes : List Cha
 /-- sizes for the session layer: as `Small`; a file the server re-reads from disk, or loads with its
 package, is below the `u32` limit (`set_vfs_file_content` does not check `MAX_FILE_LEN`) -/
 def SmallEv (s : Sess) : Ev → Prop
-  | .msg m => Small s.docs m
+  | .msg _ m => Small s.docs m
   | _ => ∀ p ∈ s.docs, u8sum p.2 < U32
 
 theorem sstep_normal (s : Sess) (e : Ev) (h : Normal s.docs) : Normal (sstep s e).1.docs := by
   cases e with
-  | msg m => exact step_normal s.docs m h
-  | watched uri deleted disk =>
+  | msg sp m => exact step_normal s.docs m h
+  | watched sp uri deleted disk =>
     cases uri with
     | file u =>
       simp only [sstep]
@@ -206,8 +206,8 @@ theorem sstep_normal (s : Sess) (e : Ev) (h : Normal s.docs) : Normal (sstep s e
 unreadable included -/
 theorem sstep_total (s : Sess) (e : Ev) (hn : Normal s.docs) (hs : SmallEv s e) : (sstep s e).2 ≠ .crash := by
   cases e with
-  | msg m => exact step_total s.docs m hn hs
-  | watched uri deleted disk =>
+  | msg sp m => exact step_total s.docs m hn hs
+  | watched sp uri deleted disk =>
     cases uri with
     | file u =>
       simp only [sstep]
@@ -221,20 +221,20 @@ theorem sstep_total (s : Sess) (e : Ev) (hn : Normal s.docs) (hs : SmallEv s e) 
 
 /-- a file event about a document the editor holds open changes nothing: the editor's text wins over
 whatever is on disk -/
-theorem watched_open_untouched (s : Sess) (u : Nat) (deleted : Bool) (disk : Disk) (h : u ∈ s.opened) :
-    sstep s (.watched (.file u) deleted disk) = (s, .none) := by
+theorem watched_open_untouched (s : Sess) (u sp : Nat) (deleted : Bool) (disk : Disk) (h : (u, sp) ∈ s.opened) :
+    sstep s (.watched sp (.file u) deleted disk) = (s, .none) := by
   simp only [sstep]
   rw [if_pos (by simpa using h)]
 
 /-- closing a document keeps its text (the editor ends its maintenance, it does not delete the file) -/
-theorem close_keeps_text (s : Sess) (uri : Uri) : (sstep s (.msg (.didClose uri))).1.docs = s.docs := by
+theorem close_keeps_text (s : Sess) (sp : Nat) (uri : Uri) : (sstep s (.msg sp (.didClose uri))).1.docs = s.docs := by
   cases uri <;> rfl
 
 /-- **a file that vanishes**: after a DELETED event — or a CREATED / CHANGED event whose file is gone by the
 time it is read — for a document the editor does not hold open, the server has forgotten the document … -/
-theorem vanished_forgotten (s : Sess) (u : Nat) (deleted : Bool) (disk : Disk) (hno : u ∉ s.opened)
+theorem vanished_forgotten (s : Sess) (u sp : Nat) (deleted : Bool) (disk : Disk) (hno : (u, sp) ∉ s.opened)
     (hgone : deleted = true ∨ disk = .absent) :
-    lookup (sstep s (.watched (.file u) deleted disk)).1.docs u = none := by
+    lookup (sstep s (.watched sp (.file u) deleted disk)).1.docs u = none := by
   simp only [sstep]
   rw [if_neg (by simpa using hno)]
   rcases hgone with hd | hd
@@ -246,34 +246,34 @@ theorem vanished_forgotten (s : Sess) (u : Nat) (deleted : Bool) (disk : Disk) (
 
 /-- … and whatever arrives for it afterwards is harmless: a change is ignored (the store is untouched, nothing
 is applied to any other document), a request is answered with an error -/
-theorem forgotten_harmless (s : Sess) (u : Nat) (h : lookup s.docs u = none) (changes : List Change)
+theorem forgotten_harmless (s : Sess) (u sp : Nat) (h : lookup s.docs u = none) (changes : List Change)
     (id line col : Nat) :
-    (sstep s (.msg (.didChange (.file u) changes))).1.docs = s.docs ∧
-    (sstep s (.msg (.didChange (.file u) changes))).2 = .none ∧
-    (sstep s (.msg (.request id (.file u) line col))).2 = .response id false := by
+    (sstep s (.msg sp (.didChange (.file u) changes))).1.docs = s.docs ∧
+    (sstep s (.msg sp (.didChange (.file u) changes))).2 = .none ∧
+    (sstep s (.msg sp (.request id (.file u) line col))).2 = .response id false := by
   simp [sstep, step, h]
 
 /-- a document forgotten after an edit that cannot be applied is no longer recorded as open either: file events
 about it are the server's business again (`changed_reread` applies) -/
-theorem forgotten_not_open (s : Sess) (u : Nat) (changes : List Change) (t : List Char)
+theorem forgotten_not_open (s : Sess) (u sp : Nat) (changes : List Change) (t : List Char)
     (h0 : lookup s.docs u = some t) (hf : applyChanges t changes = some none) :
-    u ∉ (sstep s (.msg (.didChange (.file u) changes))).1.opened ∧
-    lookup (sstep s (.msg (.didChange (.file u) changes))).1.docs u = none := by
+    (u, sp) ∉ (sstep s (.msg sp (.didChange (.file u) changes))).1.opened ∧
+    lookup (sstep s (.msg sp (.didChange (.file u) changes))).1.docs u = none := by
   simp only [sstep, step, h0, hf]
   refine ⟨by simp, lookup_remove _ u⟩
 
 /-- an edit that is applied, and an edit to a document the server does not hold, leave the set of open documents alone -/
-theorem applied_keeps_open (s : Sess) (u : Nat) (changes : List Change)
+theorem applied_keeps_open (s : Sess) (u sp : Nat) (changes : List Change)
     (h : ∀ t, lookup s.docs u = some t → applyChanges t changes ≠ some none) :
-    (sstep s (.msg (.didChange (.file u) changes))).1.opened = s.opened := by
+    (sstep s (.msg sp (.didChange (.file u) changes))).1.opened = s.opened := by
   simp only [sstep]
   cases hl : lookup s.docs u with
   | none => rfl
   | some t => simp only [if_neg (h t hl)]
 
 /-- re-reading a changed file replaces the stored text by the (normalised) text on disk -/
-theorem changed_reread (s : Sess) (u : Nat) (text : List Char) (hno : u ∉ s.opened) :
-    lookup (sstep s (.watched (.file u) false (.regular text))).1.docs u = some (stripCR text) := by
+theorem changed_reread (s : Sess) (u sp : Nat) (text : List Char) (hno : (u, sp) ∉ s.opened) :
+    lookup (sstep s (.watched sp (.file u) false (.regular text))).1.docs u = some (stripCR text) := by
   simp only [sstep]
   rw [if_neg (by simpa using hno)]
   simp only [Bool.false_eq_true, if_false]
@@ -309,10 +309,38 @@ example : (run [] [.didOpen (.file 1) "ab\r\ncd".toList,
 
 /-- a document is edited, closed, and its file vanishes; the change that still arrives for it is ignored
 and a document opened afterwards holds exactly its own text -/
-example : let r := srun ⟨[], []⟩ [.msg (.didOpen (.file 1) "ab".toList), .msg (.didChange (.file 1) [⟨some (0, 0, 0, 0), "x".toList⟩]),
-                   .msg (.didClose (.file 1)), .watched (.file 1) true .absent,
-                   .msg (.didChange (.file 1) [⟨some (0, 0, 0, 1), []⟩]), .msg (.didOpen (.file 2) "new".toList),
-                   .msg (.request 9 (.file 1) 0 0), .watched (.file 2) true .absent]
+example : let r := srun ⟨[], []⟩ [.msg 0 (.didOpen (.file 1) "ab".toList), .msg 0 (.didChange (.file 1) [⟨some (0, 0, 0, 0), "x".toList⟩]),
+                   .msg 0 (.didClose (.file 1)), .watched 0 (.file 1) true .absent,
+                   .msg 0 (.didChange (.file 1) [⟨some (0, 0, 0, 1), []⟩]), .msg 0 (.didOpen (.file 2) "new".toList),
+                   .msg 0 (.request 9 (.file 1) 0 0), .watched 0 (.file 2) true .absent]
     r.2 = [.none, .none, .none, .none, .none, .none, .response 9 false, .none] ∧ r.1.docs = [(2, "new".toList)] := by decide
+
+/-! ### one file under two spellings of its URI
+
+`opened_files` is keyed by the URL string, the document store by the decoded path.  A file event that names an open document
+under ANOTHER spelling of its URI is therefore not "about a document the editor holds open": it reaches the store. -/
+
+/-- the guard of `watched_open_untouched` protects one spelling only: a DELETED event under any other spelling forgets the
+document although the editor holds it open -/
+theorem other_spelling_unprotected (s : Sess) (u sp' : Nat) (disk : Disk) (hno : (u, sp') ∉ s.opened) :
+    lookup (sstep s (.watched sp' (.file u) true disk)).1.docs u = none ∧
+    (sstep s (.watched sp' (.file u) true disk)).1.opened = s.opened := by
+  simp only [sstep]
+  rw [if_neg (by simpa using hno)]
+  exact ⟨lookup_remove _ u, rfl⟩
+
+/-- the store itself does not see spellings: a message does to the documents what it does under any other spelling -/
+theorem docs_spelling_independent (s : Sess) (sp sp' : Nat) (m : Msg) :
+    (sstep s (.msg sp m)).1.docs = (sstep s (.msg sp' m)).1.docs ∧ (sstep s (.msg sp m)).2 = (sstep s (.msg sp' m)).2 :=
+  ⟨rfl, rfl⟩
+
+/-- a document opened under one spelling, deleted under another: the server forgets it without a crash, the edit and the request
+that follow under the first spelling are ignored / answered with an error, and a document opened in between holds exactly its
+own text -/
+example : let r := srun ⟨[], []⟩ [.msg 0 (.didOpen (.file 1) "ab".toList), .watched 1 (.file 1) true .absent,
+                   .msg 0 (.didOpen (.file 2) "new".toList), .msg 0 (.didChange (.file 1) [⟨some (0, 0, 0, 1), "zz".toList⟩]),
+                   .msg 0 (.request 9 (.file 1) 0 0), .msg 1 (.request 10 (.file 2) 0 0), .watched 0 (.file 1) true .absent]
+    r.2 = [.none, .none, .none, .none, .response 9 false, .response 10 true, .none] ∧ r.1.docs = [(2, "new".toList)] ∧
+    r.1.opened = [(2, 0), (1, 0)] := by decide
 
 end Glas.Props.C15
